@@ -526,7 +526,7 @@ def genval(r, rng, sc, name=None):
     if k == "Mapping":
         key = rng.choice(a[1])[0]
         return untag(key) if isinstance(key, dict) else key
-    if k in ("Const", "Computed", "Check", "Padding", "Rebuild", "Peek"):
+    if k in ("Const", "Computed", "Check", "Padding", "Rebuild", "Peek", "StopIf", "Seek"):
         return None
     if k in ("Lazy", "RawCopy"):
         return genval(a[0], rng, sc, name) if k == "Lazy" else {"value": genval(a[0], rng, sc, name)}
